@@ -334,6 +334,8 @@ pub struct Simk {
     pub on_enter: Option<Box<dyn FnMut(&mut Simk, i32) + Send>>,
     /// Direct descriptor objects: id -> open.
     pub direct_files: HashMap<u64, bool>,
+    /// Direct descriptor object -> request that created it.
+    pub direct_creator: HashMap<u64, u64>,
     pub next_direct_id: u64,
     /// Pending owner tags: user_data -> owner (set by the harness after a poll).
     pub owners: HashMap<u64, u64>,
@@ -427,6 +429,7 @@ impl Simk {
             rng: Rng::new(seed ^ 0x51_4D_4B),
             on_enter: None,
             direct_files: HashMap::new(),
+            direct_creator: HashMap::new(),
             next_direct_id: 1,
             owners: HashMap::new(),
             blocked_waiters: 0,
